@@ -151,6 +151,9 @@ def parse_output(out):
     m = _RE_VIOL.search(out) or _RE_APROP.search(out)
     if m:
         r.violated = m.group(1)
+    elif "Temporal properties were violated" in out or re.search(r"Temporal property \S+ was violated", out):
+        mm = re.search(r"Temporal property (\S+) was violated", out)
+        r.violated = mm.group(1) if mm else "temporal-property"
     elif "Error: Deadlock reached" in out:
         r.deadlock = True
     elif "is violated" in out and "Error:" in out:
